@@ -62,7 +62,7 @@ def read_sub(data):
 
 def write_sub(exception=None):
     """Encodes and returns a SUB ('Subscribe') response."""
-    if not exception:
+    if exception is None:
         return join(str(Method.SUB), "V")
     return _handle_exception(exception, join(str(Method.SUB), 'E'),
                              SubscribeError, FailureError)
@@ -76,7 +76,7 @@ def read_usub(data):
 
 def write_unsub(exception=None):
     """Encodes and returns a USB ('Unsubscribe') response."""
-    if not exception:
+    if exception is None:
         return join(str(Method.USB), 'V')
     return _handle_exception(exception, join(str(Method.USB), 'E'),
                              SubscribeError, FailureError)
